@@ -439,7 +439,7 @@ class SAMIWriter(BaseWriter):
         """
         time = int(caption.start // 1000)
 
-        if self.last_time and time != self.last_time:
+        if self.last_time is not None and time != self.last_time:
             sami = self._recreate_blank_tag(
                 sami, caption, lang, primary, captions)
 
